@@ -914,7 +914,8 @@ Section Top.
   Theorem formalism_choice_value_free w :
     p_dv K inp (Some w) = p_dv K inp None ->
     p_curv K inp (Some w) = p_curv K inp None ->
-    (forall s, mapped_wt K inp (lf_fresh K inp) s = mapped_map K inp (omm_list_of K inp (lf_fresh K inp)) s) ->
+    (forall s, p_rec K inp None = Ok s ->
+               mapped_wt K inp (lf_fresh K inp) s = mapped_map K inp (omm_list_of K inp (lf_fresh K inp)) s) ->
     forall q, pure K inp (Some w) q = pure K inp None q.
   Proof.
     intros Hd Hc Hmp.
@@ -923,7 +924,7 @@ Section Top.
     assert (Hrec : p_rec K inp (Some w) = p_rec K inp None) by (unfold p_rec; now rewrite Hcrm, Hd).
     assert (Hrr : p_recred K inp (Some w) = p_recred K inp None) by (unfold p_recred; now rewrite Hrec).
     intros []; cbn [pure]; try reflexivity; try congruence.
-    - unfold p_mapped. rewrite Hrec. destruct (p_rec K inp None); simpl; [now rewrite Hmp | reflexivity].
+    - unfold p_mapped. rewrite Hrec. destruct (p_rec K inp None) as [sv|e] eqn:Er; simpl; [now rewrite (Hmp sv eq_refl) | reflexivity].
     - unfold p_regterm. now rewrite Hrr.
     - unfold p_ldc. now rewrite Hcrr.
   Qed.
@@ -1062,7 +1063,8 @@ Section Toy.
     {| in_ds := zds; in_objs := [zmapper 2 [[1; 0]; [0; 1]] (Some [[1; 0]; [0; 1]])]; in_use_wt := true; in_eps := 7 |}.
   Lemma formalism_hyps_hold :
     p_dv zk2 inpD (Some (ds_wt zds)) = p_dv zk2 inpD None /\ p_curv zk2 inpD (Some (ds_wt zds)) = p_curv zk2 inpD None
-    /\ (forall s, mapped_wt zk2 inpD (lf_fresh zk2 inpD) s = mapped_map zk2 inpD (omm_list_of zk2 inpD (lf_fresh zk2 inpD)) s).
+    /\ (forall s, p_rec zk2 inpD None = Ok s ->
+                  mapped_wt zk2 inpD (lf_fresh zk2 inpD) s = mapped_map zk2 inpD (omm_list_of zk2 inpD (lf_fresh zk2 inpD)) s).
   Proof. repeat split. Qed.
 End Toy.
 
